@@ -221,7 +221,7 @@ class MPO:
             op = self.A[0]
             assert op.shape[2] == 1
             # keep right virtual bond dimension as column dimension
-            op = sparse.csr_array(op.reshape((-1, op.shape[3])))
+            op = sparse.csr_array(op.reshape((op.shape[0]*op.shape[1], op.shape[3])))
             for i in range(1, len(self.A)):
                 T = self.A[i]
                 assert T.shape[0] == len(self.qd)
@@ -229,12 +229,12 @@ class MPO:
                 for j in range(len(self.qd)):
                     # explicitly index physical output axis;
                     # compressed sparse column format for subsequent multiplication
-                    Tj = sparse.csc_array(T[j].transpose((1, 0, 2)).reshape(T.shape[2], -1))
+                    Tj = sparse.csc_array(T[j].transpose((1, 0, 2)).reshape(T.shape[2], T.shape[1]*T.shape[3]))
                     # contract along virtual bond and isolate physical output axis of 'op'
-                    op_next_list.append((op @ Tj).reshape((n, -1)))
+                    op_next_list.append((op @ Tj).reshape((n, n*T.shape[1]*T.shape[3])))
                 op = sparse.csr_array(sparse.hstack(op_next_list))
                 n *= len(self.qd)
-                op = op.reshape((n**2, -1))
+                op = op.reshape((n**2, T.shape[3]))
             assert op.shape[1] == 1
             # restore physical input and output dimensions
             op = sparse.csr_array(op.reshape((n, n)))
